@@ -5,9 +5,26 @@ can break it are of a few kinds, and each kind is a per-site rule that holds for
 every member of the enum at that site.
 
 R1  dispatch exhaustiveness (T-AGREE, finite): every dispatch over a method
-    enum handles each member (read from the enum class) by an explicit arm, or
+    enum handles each member (read from the enum class) by an explicit arm -
+    or by a guard clause before the dispatch that leaves for that member - or
     falls to a default arm that raises NotImplementedError/ValueError whose
-    message interpolates the method value.
+    message interpolates the method value.  What the arm raises is decided
+    from what is built, not from where it is spelt: the constructor call, a
+    local it was put in (names with one definition expanded, a `case other:`
+    capture read as the subject), a conditional between two refusals, a
+    repository exception class derived from one of the two (the message its
+    __init__ hands to the base class), a resolved helper every return of which
+    hands back such an exception, or a helper called as a statement that
+    never comes back (every path ends in a raise, nothing returns) - in each
+    case with the helper's parameters bound to the arguments of the call, so
+    the message names the method only when the value handed over is the read
+    of that method (a message put together by a further helper is followed the
+    same way).  Not a refusal: a helper that only builds the exception and is
+    called without `raise`, one that can hand back None / another exception
+    type / only warns, a message that drops the method value or takes another
+    method's, `raise NotImplementedError` without message, and a message that
+    cannot be built once the arguments are bound (`'EI_X_method'.value`).  A
+    default arm no member can reach is not judged.
 R2  guarded key reads (T-GUARD): a subscript read m[Species.K] / m[k] of a
     species map whose keys depend on configuration finds its key; an in-place
     update `m[K] op= v` (also spelt `m[K] = m[K] op v`) reads m[K] before it
@@ -48,7 +65,17 @@ R3  switched-off species stay out: every store m[Species.K] = … into an index
     map handed back by the trajectory / LTO producer or by a function of the
     same module reachable from it (found through the call graph, not by name)
     is control-dependent (in the function or at all its call sites) on facts
-    that imply K is enabled, or stores a literal zero.  A store under a
+    that imply K is enabled, or stores a literal zero.  A fact that a value is
+    there (`x is not None`, isinstance, a flag tested for truth) counts for
+    the configurations under which the value can be there: the value is
+    followed to where it was made - every binding of the local, conditional
+    expressions, tuple displays / unpacking / constant subscripts, the returns
+    of a resolved helper with the facts on the path to each `return` (its
+    parameters bound to the arguments) - and each alternative that does not
+    hand back None (a false constant), together with the configuration facts
+    at the store, must imply K (a helper that returns `(mass, number)` with
+    number None unless PMnvolN is enabled, the caller storing it under
+    `number is not None`).  A store under a
     variable key needs `key in enabled_species`, or a key that is already in
     the map (the value reads the map at that key, or the key walks the map's
     own keys), or a key that walks the result of a helper which itself inserts
@@ -1138,7 +1165,10 @@ class _EnabledTable:
         """the facts (test, polarity) among `atoms` that together imply `Species.K in enabled_species` for every value
         of the option fields - None when they do not.  Facts that are not about the configuration are left out (that
         only weakens the premise)."""
-        prem = self.premises(fi, atoms)
+        return self.implied_by_premises(self.premises(fi, atoms), K)
+
+    def implied_by_premises(self, prem, K):
+        """implied_by for premises already read (they may come from several functions: a call site and the helper)"""
         if not prem:
             return None
 
@@ -1391,8 +1421,12 @@ def rule_dispatch(ctx):
                             default = c
                         else:
                             handled |= pm
+                    handled |= _handled_before(fi, x, attr)
                     sites += 1
-                    _dispatch_verdict(ctx, fi, x, attr, members, handled, default.body if default else None)
+                    # `case other:` gives the subject a name the arm may build its message from
+                    cap = {default.pattern.name: x.subject} if default is not None and isinstance(default.pattern, ast.MatchAs) \
+                        and default.pattern.pattern is None and default.pattern.name else {}
+                    _dispatch_verdict(ctx, fi, x, attr, members, handled, default.body if default else None, cap)
             # if / elif chains on `config.emissions.X_method is Enum.M`
             for x in walk_no_nested(fi.node):
                 if isinstance(x, ast.If) and not (isinstance(getattr(x, '_parent', None), ast.If)
@@ -1417,28 +1451,269 @@ def rule_dispatch(ctx):
                     if len(chain) >= 2 and attr in fields:
                         enum = prog.resolve_class_expr(cm, fields[attr])
                         members = [k for k, v in enum.class_assignments().items() if isinstance(v, ast.Constant)]
-                        handled = set(chain)
-                        # an early `if … method is NONE: return` before the chain also handles NONE
-                        for t, pol in early_exit_facts(fi.node, x):
-                            for tt, pp in conjuncts(t, pol):
-                                if not pp and isinstance(tt, ast.Compare) and attr in norm(tt.left) \
-                                        and isinstance(tt.comparators[0], ast.Attribute):
-                                    handled.add(tt.comparators[0].attr)
+                        handled = set(chain) | _handled_before(fi, x, attr)
                         sites += 1
                         _dispatch_verdict(ctx, fi, x, attr, members, handled, cur if isinstance(cur, list) else None)
     ctx.floor('C11-R1', sites, 5, 'method dispatch sites')
 
 
-def _dispatch_verdict(ctx, fi, node, attr, members, handled, default_body):
+_REFUSAL_TYPES = ('NotImplementedError', 'ValueError')
+
+
+def _expanded(fi, e, bind, depth=0):
+    """expression e of function fi with its names resolved: a parameter by the argument bound to it (`bind`, already
+    in the terms of the dispatching function), a local with one plain definition by that definition (expanded the
+    same way).  What flows into e is then readable off the result."""
+    import copy
+    if bind is None:            # already expanded
+        return e
+    fn = fi.node
+    params = set(fi.params)
+
+    class T(ast.NodeTransformer):
+        def visit_Name(self, n):
+            if not isinstance(n.ctx, ast.Load):
+                return n
+            if n.id in bind:
+                return copy.deepcopy(bind[n.id])
+            if n.id in params or depth > 6:
+                return n
+            v = single_def_value(fn, n.id)
+            if v is None or any(isinstance(x, ast.Name) and x.id == n.id for x in ast.walk(v)):
+                return n
+            return _expanded(fi, v, bind, depth + 1)
+
+        def visit_Lambda(self, n):
+            return n
+    return T().visit(copy.deepcopy(e))
+
+
+def _call_binding(callee, call, fi, bind, skip_self=False):
+    """parameter -> argument expression (expanded in the caller fi) of a call to callee; a parameter the call does
+    not bind takes its default; None when the call cannot be bound (*args / **kwargs)"""
+    a = callee.node.args
+    if any(isinstance(x, ast.Starred) for x in call.args) or any(k.arg is None for k in call.keywords) or a.vararg or a.kwarg:
+        return None
+    names = [p.arg for p in a.posonlyargs + a.args]
+    defaults = dict(zip(names[len(names) - len(a.defaults):], a.defaults))
+    defaults.update({p.arg: d for p, d in zip(a.kwonlyargs, a.kw_defaults) if d is not None})
+    if skip_self or (callee.cls is not None and names[:1] in (['self'], ['cls']) and isinstance(call.func, ast.Attribute)
+                     and not any('staticmethod' in d for d in callee.decorators())):
+        names = names[1:]
+    if len(call.args) > len(names):
+        return None
+    out = {n: _expanded(fi, x, bind) for n, x in zip(names, call.args)}
+    for k in call.keywords:
+        out[k.arg] = _expanded(fi, k.value, bind)
+    for n, d in defaults.items():
+        out.setdefault(n, d)
+    return out
+
+
+def _handled_before(fi, node, attr) -> set[str]:
+    """members of the method enum that an earlier guard clause (`if … method is NONE: return / raise`) has taken
+    out before the dispatch `node` is reached: they are handled there, whatever form the dispatch has"""
+    out = set()
+    for t, pol in early_exit_facts(fi.node, node):
+        for tt, pp in conjuncts(t, pol):
+            if not pp and isinstance(tt, ast.Compare) and len(tt.ops) == 1 and norm(tt.left) == f'config.emissions.{attr}':
+                c = tt.comparators[0]
+                if isinstance(tt.ops[0], (ast.Is, ast.Eq)) and isinstance(c, ast.Attribute):
+                    out.add(c.attr)
+                elif isinstance(tt.ops[0], ast.In) and isinstance(c, (ast.Tuple, ast.List, ast.Set)) \
+                        and all(isinstance(el, ast.Attribute) for el in c.elts):
+                    out |= {el.attr for el in c.elts}
+    return out
+
+
+def _raise_points(stmts):
+    """the raise statements a block ends in when every path through it that reaches its end leaves by one of them
+    (last statement a raise; an if / else or a match with a catch-all arm whose every branch does); else None"""
+    s = last_stmt(stmts) if stmts else None
+    if isinstance(s, ast.Raise):
+        return [s]
+    if isinstance(s, ast.If) and s.orelse:
+        a, b = _raise_points(s.body), _raise_points(s.orelse)
+        return a + b if a is not None and b is not None else None
+    if isinstance(s, ast.Match) and any(_pattern_members(c.pattern) is None and c.guard is None
+                                        and isinstance(c.pattern, ast.MatchAs) and c.pattern.pattern is None for c in s.cases):
+        out = []
+        for c in s.cases:
+            r = _raise_points(c.body)
+            if r is None:
+                return None
+            out += r
+        return out
+    return None
+
+
+def _is_target(x, target: str) -> bool:
+    return isinstance(x, ast.Attribute) and norm(x) == target
+
+
+def _breaks_itself(msg) -> str | None:
+    """a message expression that cannot be evaluated: an attribute read off a literal that has no such attribute
+    (`'EI_X_method'.value` once the arguments are bound - the option name handed over where the method belongs)"""
+    for a in msg:
+        for x in ast.walk(a):
+            if isinstance(x, ast.Attribute) and isinstance(x.value, ast.Constant) and not hasattr(x.value.value, x.attr):
+                return f'`{norm(x)[:40]}` raises AttributeError while the message is built: the refusal itself fails'
+    return None
+
+
+def _interpolates(prog, fi, msg, target: str, depth=0) -> bool:
+    """do the (expanded) message arguments `msg` of an exception read `target`?  A message that a resolved helper
+    of the repository puts together (`NotImplementedError(_text(option, method))`) reads it when every return of
+    the helper does, with the parameters bound to the arguments.  Raises _Cannot when the message cannot be built."""
+    broken = _breaks_itself(msg)
+    if broken:
+        raise _Cannot(broken)
+    for a in msg:
+        callee = resolve_call(prog, fi, a) if isinstance(a, ast.Call) and depth < 3 else None
+        if callee is not None and callee.name not in ('__init__', '__post_init__'):
+            b2 = _call_binding(callee, a, fi, None)
+            rets = [r.value for r in walk_no_nested(callee.node) if isinstance(r, ast.Return) and r.value is not None]
+            if b2 is not None and rets:
+                if all(_interpolates(prog, callee, [_expanded(callee, r, b2)], target, depth + 1) for r in rets):
+                    return True
+                continue
+        if any(_is_target(x, target) for x in ast.walk(a)):
+            return True
+    return False
+
+
+def _refusal(prog, fi, e, target: str, bind, depth=0):
+    """Is the exception expression e (in fi, parameters bound by `bind`) a NotImplementedError / ValueError whose
+    message interpolates the configuration read `target`?  Decided from what is built, not from where: the
+    constructor call itself, a local it was put in, a conditional between two of them, a repository class derived
+    from one of the two (the message its __init__ hands to the base class), or a resolved helper every return of
+    which hands back such an exception - with the helper's parameters bound to the arguments of this call, so the
+    message names the method only when the value that is passed in is the method's.
+    `bind` None: e is already expanded.
+    -> (True, how) | (False, why not) | (None, why it cannot be told)"""
+    try:
+        return _refusal_1(prog, fi, e, target, bind, depth)
+    except _Cannot as ex:
+        return False, str(ex)
+
+
+def _refusal_1(prog, fi, e, target: str, bind, depth):
+    if e is None:
+        return False, 'a bare `raise`'
+    if depth > 4:
+        return None, f'`{norm(e)[:50]}`: too many levels of helpers'
+    e = _expanded(fi, e, bind)
+    if isinstance(e, ast.IfExp):
+        for arm in (e.body, e.orelse):
+            r = _refusal(prog, fi, arm, target, None, depth + 1)
+            if r[0] is not True:
+                return r
+        return True, 'both arms of the conditional'
+    if not isinstance(e, ast.Call):
+        if isinstance(e, (ast.Name, ast.Attribute)) and norm(e).split('.')[-1] in _REFUSAL_TYPES:
+            return False, f'`raise {norm(e)}` carries no message'
+        if isinstance(e, ast.Name) and e.id in fi.params:
+            return None, f'the exception is the parameter `{e.id}`, not bound here'
+        return False, f'`{norm(e)[:50]}` is not a NotImplementedError/ValueError built here'
+    ci = prog.resolve_class_expr(fi.module, e.func)
+    if ci is None and call_name(e).split('.')[-1] in _REFUSAL_TYPES and call_name(e).split('.')[0] in _REFUSAL_TYPES + ('builtins',):
+        msg = list(e.args) + [k.value for k in e.keywords]
+        if _interpolates(prog, fi, msg, target):
+            return True, f'{call_name(e)} naming {target}'
+        return False, f'the message of `{norm(e)[:60]}` does not interpolate {target}'
+    if ci is not None:
+        # a repository exception class: refuses when it derives from one of the two; its message is what reaches
+        # the base constructor
+        mro = ci.mro()
+        if not any(b.split('.')[-1] in _REFUSAL_TYPES for k in mro for b in k.base_exprs):
+            return False, f'{ci.name} is not a NotImplementedError/ValueError'
+        if any(n in k.methods for k in mro for n in ('__str__', '__new__')):
+            return None, f'{ci.name} renders its own message'
+        init = ci.find_method('__init__')
+        if init is None:
+            msg = list(e.args) + [k.value for k in e.keywords]
+            if _interpolates(prog, fi, msg, target):
+                return True, f'{ci.name} naming {target}'
+            return False, f'the message of `{norm(e)[:60]}` does not interpolate {target}'
+        b2 = _call_binding(init, e, fi, None, skip_self=True)
+        if b2 is None:
+            return None, f'cannot bind the arguments of `{norm(e)[:50]}`'
+        sup = [c for c in calls_in(init.node) if isinstance(c.func, ast.Attribute) and c.func.attr == '__init__'
+               and (isinstance(c.func.value, ast.Call) and call_name(c.func.value) == 'super'
+                    or norm(c.func.value).split('.')[-1] in _REFUSAL_TYPES)]
+        if len(sup) != 1:
+            return None, f'{ci.name}.__init__ does not hand one message to its base class'
+        msg = [_expanded(init, a, b2) for a in list(sup[0].args) + [k.value for k in sup[0].keywords]]
+        if _interpolates(prog, init, msg, target):
+            return True, f'{ci.name} naming {target}'
+        return False, f'the message {ci.name} builds for `{norm(e)[:50]}` does not interpolate {target}'
+    callee = resolve_call(prog, fi, e)
+    if callee is None:
+        if call_name(e).split('.')[-1].endswith(('Error', 'Exception', 'Warning')) and '.' not in call_name(e):
+            return False, f'`{norm(e)[:50]}` is not a NotImplementedError/ValueError'
+        return None, f'cannot resolve `{call_name(e)}`, which builds the exception'
+    b2 = _call_binding(callee, e, fi, None)
+    if b2 is None:
+        return None, f'cannot bind the arguments of `{norm(e)[:50]}`'
+    if any(isinstance(x, (ast.Yield, ast.YieldFrom)) for x in walk_no_nested(callee.node)):
+        return False, f'{callee.name} is a generator, not an exception'
+    rets = [r for r in walk_no_nested(callee.node) if isinstance(r, ast.Return)]
+    if not rets or _raise_points(callee.node.body) is None and not isinstance(last_stmt(callee.node.body), ast.Return):
+        return False, f'{callee.name} can end without handing back an exception (`raise None` is a TypeError)'
+    for r in rets:
+        got = _refusal(prog, callee, r.value, target, b2, depth + 1)
+        if got[0] is not True:
+            return got[0], f'{callee.name} (line {r.lineno}): {got[1]}'
+    return True, f'{callee.name} builds a refusal naming {target}'
+
+
+def _arm_refusal(prog, fi, body, target: str, bind, depth=0):
+    """Does the default arm `body` refuse by name?  Its raise (as before: a raise among its own statements), the
+    raise points it ends in, or a call - as a statement - of a resolved helper that never comes back: every path
+    through the helper ends in a raise and nothing returns, each of its raises decided with the helper's parameters
+    bound to the arguments.  A helper that only *builds* the exception must be raised by the arm: calling it as a
+    statement refuses nothing."""
+    if not body:
+        return False, None
+    own = [s for s in body if isinstance(s, ast.Raise)]
+    pts = [own[-1]] if own else _raise_points(body)
+    if pts:
+        for r in pts:
+            got = _refusal(prog, fi, r.exc, target, bind, depth)
+            if got[0] is not True:
+                return got
+        return True, 'raise'
+    s = last_stmt(body)
+    if isinstance(s, ast.Expr) and isinstance(s.value, ast.Call) and depth <= 3:
+        callee = resolve_call(prog, fi, s.value)
+        if callee is not None and callee.name not in ('__init__', '__post_init__'):
+            inner = _raise_points(callee.node.body)
+            if inner is not None and not any(isinstance(x, (ast.Return, ast.Yield, ast.YieldFrom)) for x in walk_no_nested(callee.node)):
+                b2 = _call_binding(callee, s.value, fi, bind)
+                if b2 is None:
+                    return None, f'cannot bind the arguments of `{norm(s.value)[:50]}`'
+                for r in inner:
+                    got = _refusal(prog, callee, r.exc, target, b2, depth + 1)
+                    if got[0] is not True:
+                        return got[0], f'{callee.name} (line {r.lineno}): {got[1]}'
+                return True, f'{callee.name} never returns'
+            if inner is None and any(isinstance(r, ast.Return) and r.value is not None
+                                     and _refusal(prog, callee, r.value, target, _call_binding(callee, s.value, fi, bind) or {}, depth + 1)[0]
+                                     for r in walk_no_nested(callee.node)):
+                return False, f'`{norm(s.value)[:50]}` builds the exception but the arm does not raise it'
+            if any(isinstance(x, ast.Raise) for x in walk_no_nested(callee.node)):
+                return False, f'{callee.name} raises only on some of its paths: the others come back and the arm goes on'
+    return False, None
+
+
+def _dispatch_verdict(ctx, fi, node, attr, members, handled, default_body, bind=None):
     missing = [m for m in members if m not in handled]
-    raises = None
-    if default_body:
-        for s in default_body:
-            if isinstance(s, ast.Raise) and s.exc is not None:
-                raises = s
-    named = raises is not None and isinstance(raises.exc, ast.Call) \
-        and call_name(raises.exc) in ('NotImplementedError', 'ValueError') \
-        and f'config.emissions.{attr}' in norm(raises.exc)
+    target = f'config.emissions.{attr}'
+    named, why = (False, None)
+    if missing:
+        named, why = _arm_refusal(ctx.prog, fi, default_body, target, bind or {})
+        if named is None:
+            ctx.undecided('C11-R1', fi, f'{attr}: default arm', why)
     for mem in members:
         if mem in handled:
             ctx.ob('C11-R1', fi, f'{attr}: member {mem} has an explicit arm', True, 'explicit arm', line=node.lineno,
@@ -1447,7 +1722,8 @@ def _dispatch_verdict(ctx, fi, node, attr, members, handled, default_body):
             ctx.ob('C11-R1', fi, f'{attr}: member {mem} falls to the default arm', bool(named),
                    'default arm raises NotImplementedError/ValueError naming the method value' if named else
                    (f'{mem} is neither handled nor refused by name: the call continues with unset locals / '
-                    'returns nothing (an internal error or a silently wrong inventory)'), line=node.lineno)
+                    'returns nothing (an internal error or a silently wrong inventory)' + (f' [{why}]' if why else '')),
+                   line=node.lineno)
     if not missing:
         ctx.ob('C11-R1', fi, f'{attr}: dispatch covers {sorted(handled)}', True, 'all members handled explicitly',
                line=node.lineno)
@@ -2199,11 +2475,180 @@ def _config_facts(atoms) -> str:
     return ('the facts on its path (' + '; '.join(out)[:200] + ') do not imply') if out else 'nothing on its path implies'
 
 
+# ------------------------------------------------ facts about a value ---
+def _bound_premises(table, fi, atoms, bind):
+    """the configuration facts among atoms of function fi as premises of the table, locals with one definition
+    expanded and parameters replaced by the arguments bound to them (`bind`, in the terms of the function the
+    question is asked in) - so that facts of a helper and facts of its call site can be put side by side"""
+    out = []
+    for t, pol in atoms:
+        if isinstance(t, ast.Compare) and isinstance(t.comparators[0], ast.pattern):
+            t2 = ast.Compare(left=_expanded(fi, t.left, bind), ops=t.ops, comparators=t.comparators)
+        else:
+            t2 = _expanded(fi, t, bind)
+        if fi.cls is not None and any(isinstance(x, ast.Name) and x.id in ('self', 'cls') for x in ast.walk(t2)):
+            continue        # the table reads `self` as the configuration object
+        out.append((t2, pol))
+    return table.premises(None, out)
+
+
+def _value_alternatives(prog, table, fi, e, bind, truthy: bool, sel: int | None = None, depth: int = 0):
+    """Under which configurations can the value of expression e (component `sel` of it) of function fi be something
+    other than None (truthy=False) / be true (truthy=True)?  Answer: a list of alternatives, each a list of table
+    premises (facts about the configuration that held when the value was made); the value is non-None / true only
+    when all premises of at least one alternative hold.  [] - it never is; [[]] - nothing is known (any
+    configuration).  The value is followed to where it was made: through the definitions of a local (every
+    binding of the name is a source; a binding to None / a false constant is none), conditional expressions, tuple
+    displays and unpacking, constant subscripts, and the returns of a resolved helper (the facts on the path to each
+    `return`, the helper's parameters bound to the arguments of the call); a value tested for truth is also known
+    by its own conjuncts (`flag = a is not None and K in enabled`).  The facts are about the configuration, which
+    does not change while a flight is computed, so a fact that held where the value was made holds where it is
+    tested."""
+    from ..astutil import local_defs
+    unknown = [[]]
+    if depth > 6:
+        return unknown
+
+    def again(fi_, e_, bind_, sel_, d_=depth + 1):
+        return _value_alternatives(prog, table, fi_, e_, bind_, truthy, sel_, d_)
+
+    if isinstance(e, ast.IfExp):
+        return [_bound_premises(table, fi, conjuncts(e.test, True), bind) + a for a in again(fi, e.body, bind, sel)] + \
+               [_bound_premises(table, fi, conjuncts(e.test, False), bind) + a for a in again(fi, e.orelse, bind, sel)]
+    if isinstance(e, ast.NamedExpr):
+        return again(fi, e.value, bind, sel)
+    if sel is not None:
+        if isinstance(e, (ast.Tuple, ast.List)):
+            if len(e.elts) > sel and not any(isinstance(x, ast.Starred) for x in e.elts):
+                return again(fi, e.elts[sel], bind, None)
+            return unknown
+    else:
+        if isinstance(e, ast.Constant):
+            return [] if e.value is None or (truthy and not e.value) else unknown
+        if isinstance(e, ast.Subscript) and isinstance(e.slice, ast.Constant) and isinstance(e.slice.value, int) \
+                and not isinstance(e.slice.value, bool) and e.slice.value >= 0:
+            return again(fi, e.value, bind, e.slice.value)
+    if isinstance(e, ast.Name):
+        if e.id in fi.params or e.id in (bind or {}):
+            return unknown
+        if any(isinstance(x, (ast.Nonlocal, ast.Global)) and e.id in x.names for x in ast.walk(fi.node)):
+            return unknown
+        ds = local_defs(fi.node, e.id)
+        if not ds:
+            return unknown
+        out = []
+        for d in ds:
+            sub = unknown
+            if isinstance(d, ast.Assign) and len(d.targets) == 1:
+                tg = d.targets[0]
+                if isinstance(tg, ast.Name):
+                    sub = again(fi, d.value, bind, sel)
+                elif isinstance(tg, (ast.Tuple, ast.List)) and sel is None and not any(isinstance(x, ast.Starred) for x in tg.elts):
+                    i = next((i for i, x in enumerate(tg.elts) if isinstance(x, ast.Name) and x.id == e.id), None)
+                    if i is not None:
+                        sub = again(fi, d.value, bind, i)
+            elif isinstance(d, ast.AnnAssign) and isinstance(d.target, ast.Name):
+                if d.value is None:
+                    continue        # a declaration binds nothing
+                sub = again(fi, d.value, bind, sel)
+            if sub:
+                here = _bound_premises(table, fi, facts_at(fi.node, d), bind)
+                out += [here + a for a in sub]
+        return out
+    if isinstance(e, ast.Call):
+        callee = resolve_call(prog, fi, e)
+        if callee is None or callee.node.decorator_list or callee.name.startswith('__') \
+                or isinstance(callee.node, ast.AsyncFunctionDef) \
+                or any(isinstance(x, (ast.Yield, ast.YieldFrom)) for x in walk_no_nested(callee.node)):
+            return unknown      # (a memoised helper answers for the configuration of an earlier call)
+        b = _call_binding(callee, e, fi, bind)
+        if b is None:
+            return unknown
+        out = []
+        for r in walk_no_nested(callee.node):
+            if isinstance(r, ast.Return) and r.value is not None:
+                sub = again(callee, r.value, b, sel)
+                if sub:
+                    here = _bound_premises(table, callee, facts_at(callee.node, r), b)
+                    out += [here + a for a in sub]
+        return out
+    if sel is None and truthy:
+        return [_bound_premises(table, fi, conjuncts(e, True), bind)]
+    return unknown
+
+
+def _value_facts(atoms):
+    """the facts among atoms that say a value is there: `x is not None`, `x != None`, isinstance(x, ..) - and a
+    value tested for truth: [(the value expression, tested for truth?, text)]"""
+    out = []
+    for t, pol in atoms:
+        if isinstance(t, ast.Compare) and not isinstance(t.comparators[0], ast.pattern) and len(t.ops) == 1 \
+                and isinstance(t.ops[0], (ast.Is, ast.Eq)) and not pol:
+            l, r = t.left, t.comparators[0]
+            if isinstance(l, ast.Constant) and l.value is None:
+                l, r = r, l
+            if isinstance(r, ast.Constant) and r.value is None and isinstance(l, (ast.Name, ast.Subscript, ast.Call)):
+                out.append((l, False, f'{norm(l)} is not None'))
+        elif pol and isinstance(t, ast.Call) and isinstance(t.func, ast.Name) and t.func.id == 'isinstance' and len(t.args) == 2 \
+                and isinstance(t.args[0], (ast.Name, ast.Subscript)):
+            out.append((t.args[0], False, norm(t)))
+        elif pol and isinstance(t, (ast.Name, ast.Subscript)):
+            out.append((t, True, norm(t)))
+    return out
+
+
+def species_enabled_by_value(prog, table, fi, atoms, K: str, extra=None) -> str | None:
+    """Do the facts at a site imply that species K is switched on, when one of them is about a value that is there
+    (not None / true) only under some configurations - the result of a helper that hands the value back only when
+    the species is enabled?  Every alternative under which the value can be there must, together with the
+    configuration facts of the site (and `extra`, the premises of a call site), imply K.  Returns the reason."""
+    base = table.premises(fi, atoms) + list(extra or [])
+    for e, truthy, txt in _value_facts(atoms):
+        try:
+            alts = _value_alternatives(prog, table, fi, e, {}, truthy)
+        except (_Cannot, RecursionError):
+            continue
+        if alts == [[]]:
+            continue
+        if not alts:
+            return f'unreachable: {txt} never holds (every source of the value is None)'
+        why = []
+        for a in alts:
+            g = table.implied_by_premises(base + a, K) if base + a else None
+            if g is None:
+                break
+            why.append(g)
+        else:
+            return f'{txt}, and the value is there only under: ' + ' | '.join(dict.fromkeys(why))
+    return None
+
+
 # ---------------------------------------------------------------- R3 -----
 def rule_stores(ctx, groups):
     prog = ctx.prog
     n = 0
     n_fn = 0
+
+    def enabled_at(fi, atoms, K, call_facts):
+        """(reason, where) when the facts at a store of function fi imply that species K is enabled: the configuration
+        facts in the producer, those at every call site of it, or - with a fact about a value among them - the
+        configurations under which a helper hands that value back"""
+        g = species_enabled_by(atoms, K, groups, fi=fi)
+        if g is not None:
+            return g, 'in the producer'
+        if call_facts:
+            gs = [species_enabled_by(a, K, groups, fi=c_) for c_, a in call_facts]
+            if gs and all(gs):
+                return gs[0], 'at every call site'
+        g = species_enabled_by_value(prog, groups, fi, atoms, K)
+        if g is not None:
+            return g, 'in the producer'
+        if call_facts:
+            gs = [species_enabled_by_value(prog, groups, fi, atoms, K, extra=groups.premises(c_, a)) for c_, a in call_facts]
+            if gs and all(gs):
+                return gs[0], 'with the facts at every call site'
+        return None, 'in the producer'
+
     for rel in PRODUCER_ENTRIES:
         for fi, maps in _producers(prog, rel):
             n_fn += 1
@@ -2257,12 +2702,7 @@ def rule_stores(ctx, groups):
                         lit = _literal_species_keys(prog, fi, st, keyvar)
                         if lit:
                             for K_ in lit:
-                                g_ = species_enabled_by(atoms, K_, groups, fi=fi)
-                                where = 'in the producer'
-                                if g_ is None and call_facts:
-                                    gs = [species_enabled_by(a, K_, groups, fi=c_) for c_, a in call_facts]
-                                    if gs and all(gs):
-                                        g_, where = gs[0], 'at every call site'
+                                g_, where = enabled_at(fi, atoms, K_, call_facts)
                                 ctx.ob('C11-R3', fi, f'{norm(t)} for {keyvar} = Species.{K_}', g_ is not None,
                                        f'implied on: `{g_}` ({where})' if g_ else
                                        (f'Species.{K_} is written into the {rel.split("/")[-1][:-3]} indices, and {_config_facts(atoms)} '
@@ -2275,12 +2715,7 @@ def rule_stores(ctx, groups):
                             filtered) if ok else
                            'a species taken from a variable is stored without testing that it is enabled', line=st.lineno)
                     continue
-                g = species_enabled_by(atoms, K, groups, fi=fi)
-                where = 'in the producer'
-                if g is None and call_facts:
-                    gs = [species_enabled_by(a, K, groups, fi=c_) for c_, a in call_facts]
-                    if gs and all(gs):
-                        g, where = gs[0], 'at every call site'
+                g, where = enabled_at(fi, atoms, K, call_facts)
                 ctx.ob('C11-R3', fi, f'{norm(t)} = {norm(val)[:40] if val is not None else ""}', g is not None,
                        f'implied on: `{g}` ({where})' if g else
                        (f'Species.{K} is written into the {rel.split("/")[-1][:-3]} indices, and {_config_facts(atoms)} '
